@@ -29,6 +29,9 @@ pub fn voice_cfg(kind: usize) -> GenCfg {
         1 => GenCfg { ns: 3, nstate: 1, fperiod: 2, order: 4, lpf_taps: 3, gv: true, tree: 1, wset: 1, dur_scale: 0.9, stage: 2, log_gain: true, ..GenCfg::default() },
         // HIST voices: a little longer (2–4 frames), two states
         2 => GenCfg { ns: 3, nstate: 2, fperiod: 2, order: 3, lpf_taps: 3, gv: true, tree: 1, wset: 2, dur_scale: 0.6, ..GenCfg::default() },
+        // SCHED voice with two states per phoneme (two trees per stream model: state-indexed lookups have a first and
+        // a second step)
+        6 => GenCfg { ns: 3, nstate: 2, fperiod: 2, order: 3, lpf_taps: 3, gv: true, tree: 1, wset: 1, dur_scale: 0.5, ..GenCfg::default() },
         _ => GenCfg { ns: 2, nstate: 1, fperiod: 3, order: 4, gv: false, tree: 1, wset: 1, dur_scale: 1.5, stage: 1, ..GenCfg::default() },
     }
 }
@@ -572,6 +575,7 @@ pub fn child(args: &[String]) -> i32 {
         "c03setter" => child_setter(&args[1..]),
         "c03base" => child_base(&args[1..]),
         "c03sched" => child_sched(&args[1..]),
+        "c03proc" => child_proc(&args[1..]),
         _ => 2,
     }
 }
@@ -610,6 +614,134 @@ fn run_sched_child(kind: usize, tuple: &[usize], bound: usize, gran: u8, wall: u
     let s = reader.join().unwrap_or_default();
     let line = s.lines().rev().find(|l| l.starts_with('{')).ok_or_else(|| format!("no result from scheduler child (status {:?})", status))?;
     serde_json::from_str(line).map_err(|e| e.to_string())
+}
+
+// ---------------------------------------------------------------------------------------------
+// process history: what a process synthesized before must not matter (state that outlives an engine: statics,
+// lazily built tables). Every run is its own child process; the reference is a child that only does the second step.
+// ---------------------------------------------------------------------------------------------
+/// (voice kind, one setter call applied to its default condition)
+fn proc_items() -> Vec<(usize, Option<Act>)> {
+    let mut v: Vec<(usize, Option<Act>)> = [0usize, 1, 2, 3, 6].iter().map(|k| (*k, None)).collect();
+    let mut acts = setter_alphabet(3);
+    acts.push(Act::Volume(1.0));
+    for a in acts {
+        // values that ask for absurd amounts of work or memory are left out (they would only be cut off below)
+        let absurd = match a {
+            Act::Speed(x) => x < 0.05,
+            Act::Fperiod(x) => x > 4800,
+            Act::Rate(x) => x > 1_000_000,
+            _ => false,
+        };
+        if !absurd {
+            v.push((2, Some(a)));
+        }
+    }
+    v
+}
+fn proc_item_engine(item: &(usize, Option<Act>)) -> Engine {
+    let mut e = engine_kind(item.0);
+    if let Some(a) = &item.1 {
+        a.apply(&mut e.condition);
+    }
+    e
+}
+const NONE: usize = usize::MAX;
+fn child_proc(args: &[String]) -> i32 {
+    unsafe {
+        let lim = libc::rlimit { rlim_cur: 3 << 30, rlim_max: 3 << 30 };
+        libc::setrlimit(libc::RLIMIT_AS, &lim);
+    }
+    let (i, j): (usize, usize) = (args[0].parse().unwrap_or(NONE), args[1].parse().unwrap());
+    let items = proc_items();
+    let utts = utterances();
+    if i != NONE {
+        let e = proc_item_engine(&items[i]);
+        let _ = catch(|| e.synthesize(&utts[1][..]).map(|w| w.len()));
+    }
+    let e = proc_item_engine(&items[j]);
+    match catch(|| e.synthesize(&utts[1][..])) {
+        Ok(Ok(w)) => println!("W {}", hex(&w)),
+        Ok(Err(er)) => println!("E error {}", er),
+        Err(p) => println!("E panic {}", site_of(&p)),
+    }
+    0
+}
+fn run_proc_child(i: usize, j: usize) -> String {
+    let exe = match std::env::current_exe() {
+        Ok(e) => e,
+        Err(e) => return format!("X {}", e),
+    };
+    // an item with an absurd setter value (speed 1e-7: ten million times the frames) may run "forever": it is cut
+    // off and thereby excluded from the part
+    let mut child = match Command::new(&exe).args(["child", "c03proc", &i.to_string(), &j.to_string()]).stderr(Stdio::null()).stdout(Stdio::piped()).spawn() {
+        Ok(c) => c,
+        Err(e) => return format!("X {}", e),
+    };
+    let Some(mut out) = child.stdout.take() else { return "X no stdout".into() };
+    let reader = std::thread::spawn(move || {
+        let mut s = String::new();
+        let _ = std::io::Read::read_to_string(&mut out, &mut s);
+        s
+    });
+    let start = Instant::now();
+    loop {
+        match child.try_wait() {
+            Ok(Some(_)) => break,
+            Ok(None) => {
+                if start.elapsed() > Duration::from_secs(20) {
+                    let _ = child.kill();
+                    let _ = child.wait();
+                    let _ = reader.join();
+                    return "X cut off after 20 s".into();
+                }
+                std::thread::sleep(Duration::from_millis(10));
+            }
+            Err(e) => return format!("X {}", e),
+        }
+    }
+    let text = reader.join().unwrap_or_default();
+    text.lines().find(|l| l.starts_with("W ") || l.starts_with("E ")).map(|l| l.to_string()).unwrap_or_else(|| "X died".to_string())
+}
+fn proc_part(rep: &'static Report) {
+    let items = proc_items();
+    let describe = |k: usize| format!("voice kind {}{}", items[k].0, items[k].1.as_ref().map(|a| format!(" after {:?}", a)).unwrap_or_default());
+    // solo runs: the reference, and the filter (an item whose own synthesis fails or dies, e.g. an absurd frame
+    // period, takes part neither as first nor as second step)
+    let solo: Mutex<Vec<String>> = Mutex::new(vec![String::new(); items.len()]);
+    par_for(items.len(), 1, |k| {
+        let r = run_proc_child(NONE, k);
+        solo.lock().unwrap()[k] = r;
+    });
+    let solo = solo.into_inner().unwrap();
+    let ok: Vec<usize> = (0..items.len()).filter(|k| solo[*k].starts_with("W ") && solo[*k].len() > 2).collect();
+    let kinds: Vec<usize> = ok.iter().cloned().filter(|k| items[*k].1.is_none()).collect();
+    let devs: Vec<usize> = ok.iter().cloned().filter(|k| items[*k].1.is_some()).collect();
+    let k2 = items.iter().position(|it| it.0 == 2 && it.1.is_none()).unwrap();
+    let mut pairs: Vec<(usize, usize)> = Vec::new();
+    for &a in &kinds {
+        for &b in &kinds {
+            if a != b {
+                pairs.push((a, b));
+            }
+        }
+    }
+    for &d in &devs {
+        pairs.push((d, k2));
+        pairs.push((k2, d));
+    }
+    let distinct: std::collections::BTreeSet<&String> = ok.iter().map(|k| &solo[*k]).collect();
+    rep.guard(kinds.len() >= 4 && devs.len() >= 20 && distinct.len() >= 10, "process-history part has too few usable items");
+    par_for(pairs.len(), 1, |pi| {
+        let (a, b) = pairs[pi];
+        rep.eval(1);
+        let r = run_proc_child(a, b);
+        if r != solo[b] {
+            let what = if r.starts_with("W ") { "gives a different waveform".to_string() } else { format!("fails ({})", &r[..r.len().min(80)]) };
+            rep.violation("process-history", format!("synthesis on {} {} in a process that synthesized on {} before", describe(b), what, describe(a)), json!({"part": "proc", "first": a, "second": b, "first_item": describe(a), "second_item": describe(b)}));
+        }
+    });
+    rep.note("process_history", json!({"items": items.len(), "usable_items": ok.len(), "distinct_solo_waveforms": distinct.len(), "ordered_pairs": pairs.len(), "rule": "every ordered pair of the voice kinds, and (setter value, default) / (default, setter value) on one voice: the second synthesis in a fresh child process equals the same synthesis alone in a fresh child process"}));
 }
 
 // ---------------------------------------------------------------------------------------------
@@ -788,7 +920,7 @@ fn setter_alphabet(ns: usize) -> Vec<Act> {
 pub fn run(tier: Tier) -> i32 {
     let rep: &'static Report = Box::leak(Box::new(Report::new("C03", tier, "model_checking")));
     let monitor = Arc::new(HangMonitor::start(rep, "C03 call history"));
-    rep.set_rule("HIST (stateright BFS, no state merging): all call histories to the depth bound over {synthesize(u) for 4 utterances (one of them time-stamped), clone+synthesize, open a generator (<= 2 live), step it, finish it, set/reset 7 condition setters incl. alignment and frame period} on one real engine, every output compared bit-exactly with a baseline computed by a fresh child process for (condition values, labels); SCHED: for each tuple of programs {synthesize(u1), synthesize(u2), generator(u1) stepped, clone().synthesize(u1)} on one shared engine (mel-cepstral and LSP voices with GV, postfilter and mixed excitation; an interpolated 2-voice set), every schedule with <= B preemptions at verif-hooks sites under a controlled scheduler (one agent runs at a time), outputs compared with solo baselines; all sequences of <= 2/3 setter calls followed by one canonical assignment vs a fresh engine; every setter value called on a clone / on the original / after a generator started, with the other copy or the running generator observed; compile-time Send/Sync/Clone assertion; non-trivial = history/schedule with at least two synthesis operations");
+    rep.set_rule("HIST (stateright BFS, no state merging): all call histories to the depth bound over {synthesize(u) for 4 utterances (one of them time-stamped), clone+synthesize, open a generator (<= 2 live), step it, finish it, set/reset 7 condition setters incl. alignment and frame period} on one real engine, every output compared bit-exactly with a baseline computed by a fresh child process for (condition values, labels); SCHED: for each tuple of programs {synthesize(u1), synthesize(u2), generator(u1) stepped, clone().synthesize(u1)} on one shared engine (mel-cepstral and LSP voices with GV, postfilter and mixed excitation, one and two states per phoneme; an interpolated 2-voice set), every schedule with <= B preemptions at verif-hooks sites under a controlled scheduler (one agent runs at a time), outputs compared with solo baselines; all sequences of <= 2/3 setter calls followed by one canonical assignment vs a fresh engine; process history (every ordered pair of voice kinds and (setter value, default) pairs, the second synthesis of a fresh child process vs the same synthesis alone in a fresh child process); every setter value called on a clone / on the original / after a generator started, with the other copy or the running generator observed; compile-time Send/Sync/Clone assertion; non-trivial = history/schedule with at least two synthesis operations");
     rep.assume("preemptions only at verif-hooks sites (fine: every site, impulse-response loop thinned to every 191st iteration; coarse: stage boundaries); at most 3 controlled threads and 2 preemptions; weak-memory effects are not modelled");
     static_part(rep);
     source_scan(rep);
@@ -800,6 +932,7 @@ pub fn run(tier: Tier) -> i32 {
     // they run side by side
     std::thread::scope(|phase| {
     let utts = &utts;
+    phase.spawn(move || proc_part(rep));
     phase.spawn(move || {
     // ---------- HIST ----------
     let masks: Vec<u8> = (0..(1u16 << SETTERS)).map(|m| m as u8).collect();
@@ -903,6 +1036,8 @@ pub fn run(tier: Tier) -> i32 {
             jobs.push((1, vec![1, 2], 1, 0, 40));
             jobs.push((4, vec![0, 1], 1, 0, 40));
             jobs.push((4, vec![0, 2], 2, 1, 40));
+            jobs.push((6, vec![0, 1], 1, 0, 40));
+            jobs.push((6, vec![0, 0], 1, 0, 40));
             for t in [vec![0, 1], vec![0, 0], vec![0, 2]] {
                 jobs.push((0, t.clone(), 2, 1, 40));
             }
@@ -919,6 +1054,9 @@ pub fn run(tier: Tier) -> i32 {
                 jobs.push((0, t.clone(), 2, 0, 420));
             }
             jobs.push((5, vec![0, 1], 1, 0, 240));
+            for t in &tuples {
+                jobs.push((6, t.clone(), 1, 0, 240));
+            }
         }
     }
     let sched_results: Mutex<Vec<Value>> = Mutex::new(Vec::new());
@@ -1049,6 +1187,19 @@ pub fn replay(v: &Value) -> i32 {
                     println!("replay failed: {}", e);
                     2
                 }
+            }
+        }
+        Some("proc") => {
+            let (a, b) = (v["first"].as_u64().unwrap_or(0) as usize, v["second"].as_u64().unwrap_or(0) as usize);
+            let (solo, after) = (run_proc_child(NONE, b), run_proc_child(a, b));
+            println!("second alone : {}", &solo[..solo.len().min(100)]);
+            println!("after first  : {}", &after[..after.len().min(100)]);
+            if solo == after {
+                println!("replay: {} is unaffected by {} earlier in the process", v["second_item"], v["first_item"]);
+                0
+            } else {
+                println!("MISMATCH: {} differs when {} ran earlier in the process", v["second_item"], v["first_item"]);
+                1
             }
         }
         Some("copies") => {
